@@ -198,6 +198,18 @@ def run(R):
         for roots in (["alpha", "beta"], ["beta", "alpha", "src"], [".", "src", "--include", "src/**"], ["src", "src/deep", "alpha"]):
             determinism(R, rtree, s_, r_, stats, fails, quick, 3000 + k, reps=2 if quick else 4, extra_args=roots)
             stats["multi_root_scenarios"] = stats.get("multi_root_scenarios", 0) + 1
+    # many files that each hold an exact match and, some lines away, identifiers only the compound pass recognises (mixed styles):
+    # per-worker scratch state that survives from one file to the next shows up as a different plan at another thread count
+    for k in range(1 if quick else 6):
+        a_, b_ = g.term_pair()
+        s_, r_ = gen.render(a_, "Snake"), gen.render(b_, "Snake")
+        mixed = "get_" + a_[0].capitalize() + "_" + "_".join(a_[1:])
+        mixed2 = gen.render(a_, "Pascal") + "_" + a_[0] + "Helper"
+        mtree = [{"p": f"m{j:02d}.rs", "k": "f", "m": 0o644,
+                  "c": (f"use {s_};\n" + "// filler\n" * (2 + j % 5) + f"let a = {mixed}();\n" + "// more\n" * (1 + j % 3) + f"let b = {mixed2};\n{gen.render(a_, 'Camel')}\n").encode()}
+                 for j in range(12 if quick else 40)]
+        determinism(R, mtree, s_, r_, stats, fails, quick, 4000 + k, reps=1 if quick else 3)
+        stats["many_files_compound_scenarios"] = stats.get("many_files_compound_scenarios", 0) + 1
     for k, (tree, search, replace) in enumerate(tie_scenarios(g, 2 if quick else 12)):
         determinism(R, tree, search, replace, stats, fails, quick, 1000 + k, reps=4 if quick else 8)
         stats["tie_scenarios"] = stats.get("tie_scenarios", 0) + 1
